@@ -48,7 +48,10 @@ Inductive it :=
 | Cycle (saved : list val) (i : it)
 | CycleL (orig cur : list val)
 | Repeat (v : val) (n : option nat)
-| Flatten (i : it).
+| Flatten (i : it)
+| ZipLongest (fill : val) (l : list (option it))
+| Generate (cur : val) (started : bool) (p f : lam) (sel : option lam) (seen : option (list val))
+| GenMany (queue : list val) (bound : Z) (sel : option lam) (seen : option (list val)) (depth_first : bool).
 
 Inductive outcome := Yield (v : val) (i : it) | Done | Fail (e : err) | NoFuel.
 
@@ -71,6 +74,27 @@ Fixpoint zip_go (step : st -> it -> st * outcome) (s : st) (l : list it) (vs : l
       | (s1, Yield v j') => zip_go step s1 r (v :: vs) (j' :: js)
       | r' => r'
       end
+  end.
+
+(* itertools.zip_longest: exhausted members give the fill value; ends when a round pulls nothing *)
+Fixpoint zipl_go (step : st -> it -> st * outcome) (fill : val) (s : st) (l : list (option it))
+         (vs : list val) (js : list (option it)) (active : bool) : st * outcome :=
+  match l with
+  | [] => if active then (s, Yield (VList false (rev vs)) (ZipLongest fill (rev js))) else (s, Done)
+  | None :: r => zipl_go step fill s r (fill :: vs) (None :: js) active
+  | Some j :: r =>
+      match step s j with
+      | (s1, Yield v j') => zipl_go step fill s1 r (v :: vs) (Some j' :: js) true
+      | (s1, Done) => zipl_go step fill s1 r (fill :: vs) (None :: js) active
+      | r' => r'
+      end
+  end.
+
+(* the producer family of generateMany: [$ * 2, $ * 2 + 1].where($ < bound) *)
+Definition gm_children (bound : Z) (v : val) : list val :=
+  match v with
+  | VInt z => filter (fun c => match c with VInt y => Z.ltb y bound | _ => false end) [VInt (z * 2); VInt (z * 2 + 1)]
+  | _ => []
   end.
 
 (* slice(n): to_list(islice(collection, n)), empty chunk ends the generator *)
@@ -249,6 +273,29 @@ Fixpoint next (fuel : nat) (s : st) (i : it) {struct fuel} : st * outcome :=
     | Repeat v None => (s, Yield v (Repeat v None))
     | Repeat v (Some O) => (s, Done)
     | Repeat v (Some (S n)) => (s, Yield v (Repeat v (Some n)))
+    | ZipLongest fill l => zipl_go (next fu) fill s l [] [] false
+    | Generate cur started p f sel seen =>
+        let '(s1, c) := if started then (tick s, apply f cur) else (s, cur) in
+        if negb (truthy (apply p c)) then (tick s1, Done)
+        else match seen with
+             | Some past =>
+                 if vmem c past then (tick s1, Done)
+                 else let '(s2, v) := match sel with Some g => (tick (tick s1), apply g c) | None => (tick s1, c) end in
+                      (s2, Yield v (Generate c true p f sel (Some (c :: past))))
+             | None =>
+                 let '(s2, v) := match sel with Some g => (tick (tick s1), apply g c) | None => (tick s1, c) end in
+                 (s2, Yield v (Generate c true p f sel None))
+             end
+    | GenMany [] _ _ _ _ => (s, Done)
+    | GenMany (item :: q) bound sel seen df =>
+        let kids := gm_children bound item in
+        let q' := if df then kids ++ q else q ++ kids in
+        let out := match sel with Some g => apply g item | None => item end in
+        match seen with
+        | Some past => if vmem item past then next fu s (GenMany q bound sel seen df)
+                       else (tick s, Yield out (GenMany q' bound sel (Some (item :: past)) df))
+        | None => (tick s, Yield out (GenMany q' bound sel None df))
+        end
     | Flatten j =>
         match next fu s j with
         | (s1, Yield x j') =>
@@ -366,7 +413,13 @@ Inductive stage :=
 | SFlatten | SDefaultIfEmpty (d : list val) | STimes (n : Z)
 | SIsList | SIsDict | SIsSet | SIsIterable
 | SSetCmp (op : nat) (l : list val)          (* 0 <, 1 <=, 2 >, 3 >= *)
-| SIndex (k : val) | SIndexDefault (k : val) (d : val).
+| SIndex (k : val) | SIndexDefault (k : val) (d : val)
+| SGroupByAgg (k : lam) (v : option lam) (agg : nat)      (* aggregator 0: $.len()  1: $.sum()  2: $.first() *)
+| SProject                                               (* collection.attribute on records *)
+| SUnpackNamed (n : nat) | SUnpackIdx (idxs : list nat) | SWith
+| SZipLongest (ls : list (list val)) (fill : option val)
+| SListOf (vs : list val)
+| SMergeWithX (d : kvs) (lm im : option lam2) (maxl : Z).
 
 (* yaqltypes.Iterable(): tuples, lists, sets, iterators, OrderingIterable; not dicts *)
 Definition as_it (r : rv) : option it :=
@@ -705,6 +758,65 @@ Definition apply_stage (fuel : nat) (s : st) (sg : stage) (r : rv) : rr :=
                         else (s, Err EType)
       | _, _ => no_match s
       end
+  | SGroupByAgg k v agg =>
+      with_list fuel s r (fun s1 l =>
+        if forallb (fun x => hashable (apply k x)) l then
+          ok_it s1 (OfList (map (fun g => pair_val (fst g)
+                                   (match agg with
+                                    | 0 => VInt (Z.of_nat (length (snd g)))
+                                    | 1 => match snd g with [] => VNull | x :: t => aggregate_seed (apply2 L2Add) x t end
+                                    | _ => match snd g with [] => VNull | x :: _ => x end
+                                    end))
+                                (group_by_l val_eqb (apply k)
+                                            (fun x => match v with Some g => apply g x | None => x end) l)))
+        else (s1, Err EType))
+  | SProject => with_it s r (fun i => ok_it s (Memo i))
+  | SUnpackNamed n =>
+      with_it s r (fun i =>
+        match drain fuel s (ISlice 0 (Some (S n)) i) with
+        | (s1, Ok l) => if Nat.eqb (length l) n then ok_val s1 (VList false l) else (s1, Err EValue)
+        | (s1, Err e) => (s1, Err e)
+        | (s1, _) => (s1, OutOfFuel)
+        end)
+  | SUnpackIdx idxs =>
+      with_list fuel s r (fun s1 l => ok_val s1 (VList false (map (fun i => nth (i - 1) l VNull) idxs)))
+  | SWith => (s, Ok r)
+  | SZipLongest ls fill =>
+      with_it s r (fun i => ok_it s (ZipLongest (match fill with Some v => v | None => VNull end)
+                                                (Some i :: map (fun l => Some (OfList l)) ls)))
+  | SListOf vs =>
+      match r with
+      | RIter i => with_list fuel s r (fun s1 l => ok_val s1 (VList false (l ++ vs)))
+      | RVal v => ok_val s (VList false (v :: vs))
+      | _ => (s, Unsupported)
+      end
+  | SMergeWithX e lm im maxl =>
+      match r with
+      | RDict _ d =>
+          let e' := dict_of_items e in
+          let item v1 v2 := match im with Some g => apply2 g v1 v2 | None => v2 end in
+          let merged :=
+            map (fun kv =>
+                   match dict_get_l (fst kv) e' with
+                   | Some v2 =>
+                       if negb (Z.eqb maxl 1) && is_seq v2 then
+                         (fst kv, match lm with
+                                  | Some g => apply2 g (snd kv) v2
+                                  | None => match snd kv, v2 with
+                                            | VList false l1, VList false l2 => VList false (distinct_l val_eqb (fun x => x) (l1 ++ l2))
+                                            | _, _ => VNull
+                                            end
+                                  end)
+                       else (fst kv, item (snd kv) v2)
+                   | None => kv
+                   end) d in
+          if existsb (fun kv => match dict_get_l (fst kv) e' with
+                                | Some v2 => negb (Z.eqb maxl 1) && is_seq v2 && negb (is_seq (snd kv))
+                                | None => false end) d
+          then (s, Err EType)
+          else (s, Ok (RDict true (merged ++ filter (fun kv => match dict_get_l (fst kv) d with Some _ => false | None => true end) e')))
+      | _ => no_match s
+      end
   | SIndexDefault k dflt =>
       match r with
       | RDict _ d => if hashable k then ok_val s (match dict_get_l k d with Some v => v | None => dflt end) else (s, Err EType)
@@ -730,7 +842,9 @@ Inductive source :=
 | SrcDictOf (d : kvs)              (* {k => v, ...} in the listed order *)
 | SrcRange (a b step : Z)
 | SrcRepeat (v : val) (n : Z)
-| SrcSequence (k : Z).             (* the instrumented endless source *)
+| SrcSequence (k : Z)              (* the instrumented endless source *)
+| SrcGenerate (init : val) (p f : lam) (sel : option lam) (decycle : bool)
+| SrcGenerateMany (init : Z) (bound : Z) (sel : option lam) (decycle depth_first : bool).
 
 Definition source_rv (src : source) : res rv :=
   match src with
@@ -741,6 +855,9 @@ Definition source_rv (src : source) : res rv :=
   | SrcRange a b step => if Z.eqb step 0 then Err EValue else Ok (RIter (OfList (range_l a b step)))
   | SrcRepeat v n => Ok (RIter (Repeat v (if Z.ltb n 0 then None else Some (Z.to_nat n))))
   | SrcSequence k => Ok (RIter (Src k))
+  | SrcGenerate init p f sel decycle => Ok (RIter (Generate init false p f sel (if decycle then Some [] else None)))
+  | SrcGenerateMany init bound sel decycle df =>
+      Ok (RIter (GenMany [VInt init] bound sel (if decycle then Some [] else None) df))
   end.
 
 (* ---- finalisation (convert_output_data) and observations --------------------------- *)
